@@ -284,8 +284,8 @@ func isKeyAtom(s sx.Sexp) bool {
 	if s.IsList {
 		return false
 	}
-	_, err := s.AsBytes()
-	return err == nil
+	b, err := s.AsBytes()
+	return err == nil && sx.Bytes(b).Atom == s.Atom // canonical (lower-case) hex only
 }
 
 func isIntAtom(s sx.Sexp) bool {
